@@ -128,7 +128,7 @@ func (x *fnCtx) callValue(st *State, in ssa.Instruction, c *ssa.CallCommon, fnv 
 		if x.eng.cfg.Layers["safety"] {
 			x.addVC(st, x.curShort(fr), "nil", x.ord(fr, in), "fn", Ne(fnv.L[0], IntLit(0)), "call of nil function value", x.eng.posStr(in.Pos()))
 		}
-		x.havocAllHeap(st, "unknown function value")
+		x.havocAllHeap(st, "unknown function value", append([]*Val{fnv}, args...)...)
 		var res *Val
 		if rt != nil {
 			res = x.havocVal(st, rt, "dyn."+c.Value.Name())
@@ -168,7 +168,7 @@ func (x *fnCtx) callFunction(st *State, fr *Frame, in ssa.Instruction, callee *s
 			return
 		}
 		x.eng.logAbs("%s: callee %s has no contract and cannot be inlined: heap havoced", x.short, full)
-		x.havocAllHeap(st, "callee "+full)
+		x.havocAllHeap(st, "callee "+full, args...)
 		var res *Val
 		if rt != nil {
 			res = x.havocVal(st, rt, shortPkg(pkg)+"."+key)
@@ -379,7 +379,7 @@ func (x *fnCtx) applyContract(st *State, fr *Frame, in ssa.Instruction, con *Con
 		if !con.HasMod && !con.Pure {
 			x.eng.logAbs("%s: contract of %s has no modifies clause: heap havoced at call", x.short, full)
 		}
-		x.havocAllHeap(st, "modifies * of "+full)
+		x.havocAllHeap(st, "modifies * of "+full, args...)
 	} else {
 		for _, m := range con.Modifies {
 			x.havocMatching(st, m)
@@ -525,6 +525,19 @@ func (x *fnCtx) callSiteClauses(st *State, fr *Frame, in ssa.Instruction, c *ssa
 			names[fmt.Sprintf("$%d", i-off)] = nameBind{v: a}
 		}
 		env := &specEnv{x: x, st: st, heap: st.heap, old: fr.oldHeap, names: names, fr: fr}
+		if strings.Contains(cl.Text, "$iarg") {
+			// "some interface-typed argument satisfies the clause" (robust to parameter order)
+			var alts []*Term
+			for _, a := range args {
+				if a.Tup != nil || !isIface(a.T) {
+					continue
+				}
+				names["$iarg"] = nameBind{v: a}
+				alts = append(alts, x.evalSpecBool(env, cl.Expr))
+			}
+			x.addVC(st, x.short, "at_call", cl.Ord, fmt.Sprintf("%d", site), Or(alts...), fmt.Sprintf("at call of %s, some interface argument: %s", name, cl.Text), x.eng.posStr(in.Pos()))
+			continue
+		}
 		if strings.Contains(cl.Text, "$arg") {
 			// one obligation per string-typed argument
 			for i, a := range args {
@@ -640,6 +653,31 @@ func (x *fnCtx) recordTrace(st *State, name string, c *ssa.CallCommon, fnv *Val,
 		}
 		ev := td.Event
 		// substitute $k by constant argument values when literal
+		// $k.Field[.Sub]: a literal field of a struct-valued argument
+		for i, a := range args {
+			ph := fmt.Sprintf("$%d.", i)
+			for strings.Contains(ev, ph) {
+				k := strings.Index(ev, ph)
+				j := k + len(ph)
+				for j < len(ev) && (ev[j] == '.' || ev[j] == '_' || ev[j] >= 'a' && ev[j] <= 'z' || ev[j] >= 'A' && ev[j] <= 'Z' || ev[j] >= '0' && ev[j] <= '9') {
+					j++
+				}
+				path := ev[k+len(ph) : j]
+				val := "?"
+				if a.Tup == nil {
+					for li, l := range layout(a.T) {
+						if l.Suffix == "."+path && li < len(a.L) {
+							if lit, ok := litValue(a.L[li]); ok {
+								val = lit
+							} else if a.L[li].IsLit() {
+								val = a.L[li].Op
+							}
+						}
+					}
+				}
+				ev = ev[:k] + val + ev[j:]
+			}
+		}
 		for i, a := range args {
 			ph := fmt.Sprintf("$%d", i)
 			if strings.Contains(ev, ph) {
